@@ -1206,9 +1206,13 @@ def _make_injection(inj, obs):
                     phase, vtask = _victim_phase(S, st), _victim_task(S, st)
                 except Exception as e:  # noqa: a classification problem of the harness must not reach the simulated thread
                     phase, vtask = 'unclassified:' + repr(e)[:80], None
+                try:
+                    xph = _exit_phase(S, st)
+                except Exception:  # noqa
+                    xph = 'unclassified'
                 obs['injected'] = {'kind': 'sigkill', 'victim': st.role, 'instance': ordinal, 'point': st.points, 't': round(S.now - S.t0, 6),
                                    'in_user_function': bool(getattr(st, 'in_user', 0)), 'victim_phase': phase,
-                                   'victim_task': vtask, 'opi': len(obs.get('ops', [])) - 1}
+                                   'victim_task': vtask, 'exit_phase': xph, 'opi': len(obs.get('ops', [])) - 1}
                 S.rec('inject-sigkill', st.role)
                 S.kill_proc(st.proc)
         elif kind == 'sigint':
@@ -1267,6 +1271,25 @@ def _victim_phase(S, st):
                 return 'chunk_taken'
             return 'pill_taken'
     return 'idle'
+
+
+def _exit_phase(S, st):
+    """how far the victim is on its way out (vocabulary of Model/GracefulStop.lean): None (it has not taken a lethal pill), 'pill',
+    'exiting' (inside worker_exit or before its result is sent), 'sent', 'dead' (it marked itself as dead)"""
+    ph = None
+    w = st.role.split('-')[-1]
+    for ev in S.trace:
+        if ev[0] < getattr(st, 'start_step', 0) or ev[2] != st.role:
+            continue
+        if ev[3] == 'q.get' and isinstance(ev[4], str) and ev[4].startswith('tq[') and isinstance(ev[5], str) and ev[5] == '\x00':
+            ph = 'pill'
+        elif ph is not None and ev[3] == 'user' and ev[4] == 'exit':
+            ph = 'exiting'
+        elif ph == 'exiting' and ev[3] == 'q.put' and ev[4] == 'rq':
+            ph = 'sent'
+        elif ph is not None and ev[3] == 'array.set' and ev[4] == 'workers_dead' and str(ev[5]) == w and ev[6]:
+            ph = 'dead'
+    return ph
 
 
 def _victim_task(S, st):
